@@ -32,7 +32,8 @@ def make_frame(case):
     if case['missing']:
         for name in list(cols)[:-1]:
             if r.rand() < 0.6:
-                df.loc[int(r.randint(0, n)), name] = None if name.startswith('c') else np.nan
+                # (rows 0-2 keep one occurrence of every category, so no column degenerates to one value)
+                df.loc[int(r.randint(3, n)), name] = None if name.startswith('c') else np.nan
     df = df.astype({c: object for c in cols if c.startswith('c')})
     ds = Dataset(df, c2s, target_col='y').materialize()
     tf = ds.tensor_frame
@@ -451,6 +452,16 @@ class C14(core.Check):
                 changed = True
                 break
         if not changed:
+            # an existence claim about *generic* parameters: if the drawn parameter state ignores its whole
+            # input (all ReLU units dead), no column can matter and the case says nothing about the code
+            tfa = tf
+            for c in range(len(columns_of(tf))):
+                tfa = perturbed(tfa, ds, c, list(range(len(tf))), case['seed'] + 31 + c, scale=3.0)
+            with torch.no_grad():
+                dead = nngen.max_dev(m(tfa), full) == 0.0
+            if dead:
+                self._dead = getattr(self, '_dead', 0) + 1
+                return None
             return V('column-without-influence', f'perturbing column {case["col"]} changes some prediction', 'no change')
         return None
 
@@ -466,6 +477,7 @@ class C14(core.Check):
             if v is not None:
                 report['violations'].append(v)
         report['extra']['nan_training_probe'] = seen
+        report['extra']['input_insensitive_parameter_states_skipped'] = getattr(self, '_dead', 0)
 
     def nontrivial_key(self, case, r):
         if 'probe' in case:
